@@ -26,16 +26,17 @@ FUNC = "gsm48_decode_mobile_alloc"
 
 BOUND = ("gsm48_decode_mobile_alloc cut verbatim out of layer23 common/sysinfo.c, ASan+UBSan build, every buffer a separate heap object of its exact "
          "size; observed: return code, *hopp_len, hopping[0..*hopp_len). Fixed part: 46 named cell allocations (empty, {0}, {1}, {1023}, {0,1}, {0,1023}, "
-         "{5,0}, 1..7+0, 1..8(+0), 1..15+0, 1..64, 0..63, 1..63+0, 961..1023+0, every 16th ARFCN with / without 0, ...) and 130 fixed-seed random ones "
-         "(every size 0..64, with and without ARFCN 0), each with bitmap lengths 0..9, both si4 values and the bitmaps all-zero, all-ones, every "
+         "{5,0}, 1..7+0, 1..8(+0), 1..15+0, 1..64, 0..63, 1..63+0, 961..1023+0, every 16th ARFCN with / without 0, ...) and 129 fixed-seed random ones "
+         "(every size 0..64, with and without ARFCN 0), with bitmap lengths 0..9, both si4 values and the bitmaps all-zero, all-ones, every "
          "single bit (shortest fitting length and 8 octets), exactly the allocation, the allocation plus one bit beyond, the last position alone "
-         "(= ARFCN 0 when allocated) and with bit 0, asymmetric octet patterns - about 21 000 cases judged in Python against spec.ma_decode; 3 000 "
-         "points of the in-harness C reference compared with spec.ma_decode; then inside the harness ALL 256 one-octet bitmaps for every named "
-         "allocation and si4 (23 552 cases) and ALL 65 536 two-octet bitmaps for 4 allocations of 10..16 channels with / without ARFCN 0. "
+         "(= ARFCN 0 when allocated) and with bit 0, a bit beyond alone, asymmetric octet patterns - about 11 400 cases judged in Python against "
+         "spec.ma_decode; 2 800 points of the in-harness C reference compared with spec.ma_decode; then inside the harness ALL 256 one-octet bitmaps "
+         "for every named allocation and si4 (23 552 cases) and ALL 65 536 two-octet bitmaps for 2 allocations of 10 and 16 channels with ARFCN 0. "
          "Budgeted part, round-robin: all 65 536 two-octet bitmaps for a seeded allocation of 0..17 channels; 60 000 in-harness random cases "
-         "(allocation size 0..64 uniform, ARFCN 0 in half of them, dense / sparse / clustered ARFCNs, length 0..9, bitmaps random / sparse / dense / "
-         "prefix / prefix+1) against the in-harness reference; 1 500 seeded random cases judged in Python against spec.ma_decode. A mismatch found "
-         "inside the harness is re-run through the line protocol and judged against spec.ma_decode.")
+         "(allocation size 0..64 uniform, ARFCN 0 in half of them, dense / top-clustered / edge / uniform ARFCNs, length 0..9, bitmaps random / sparse / "
+         "dense / exactly the allocation / one beyond / knocked-out prefix) against the in-harness reference; 1 500 seeded random cases judged in "
+         "Python against spec.ma_decode. A mismatch or sanitizer stop inside the harness is re-run through the line protocol and judged against "
+         "spec.ma_decode.")
 
 _MAIN = _c.PROTOCOL_C + r"""
 /* ---- reference, written from the statement / TS 44.018 10.5.2.21: inca[a] != 0 <=> ARFCN a is in the cell allocation */
